@@ -156,16 +156,22 @@ FORMAT_MODES = {
 }
 
 
-def reassemble(pio, levels, fmt, mode):
-    from toasty.pyramid import Pos
+def documented_tile_path(base, scheme, n, x, y, ext):
+    """where the tile (n, x, y) lives under the two documented naming schemes (the WWT client's URL templates
+    {1}/{3}/{3}_{2} and L{1}X{2}Y{3}); independent of PyramidIO.tile_path"""
+    if scheme == "LXY":
+        return os.path.join(base, f"L{n}X{x}Y{y}.{ext}")
+    return os.path.join(base, str(n), str(y), f"{y}_{x}.{ext}")
 
+
+def reassemble(base, scheme, levels, fmt, mode):
     nt = 2**levels
     bmode = "RGBA" if mode in ("RGB", "RGBA") else mode
     canvas = empty_buffer_array(mode, 256 * nt, 256 * nt)
     present = set()
     for ty in range(nt):
         for tx in range(nt):
-            p = pio.tile_path(Pos(levels, tx, ty), makedirs=False)
+            p = documented_tile_path(base, scheme, levels, tx, ty, fmt)
             if os.path.exists(p):
                 a = decode_independently(p, fmt)
                 if fmt == "fits":
@@ -176,6 +182,19 @@ def reassemble(pio, levels, fmt, mode):
                     raise Violation("tile-mode", f"tile {(levels, tx, ty)} stored as {a.dtype}{a.shape[2:]}, the image is {mode}")
                 canvas[256 * ty : 256 * ty + 256, 256 * tx : 256 * tx + 256] = a
                 present.add((tx, ty))
+    # tile files of this level under any other name are tiles the reassembly cannot find
+    expected_names = set(os.path.normpath(documented_tile_path(base, scheme, levels, tx, ty, fmt)) for tx in range(nt) for ty in range(nt))
+    for root, _dirs, files in os.walk(base):
+        if "nested-other" in root:
+            continue
+        for f in files:
+            full = os.path.normpath(os.path.join(root, f))
+            if not f.endswith("." + fmt) or full in expected_names:
+                continue
+            rel = os.path.relpath(full, base)
+            at_level = rel.startswith(f"L{levels}X") if scheme == "LXY" else rel.split(os.sep)[0] == str(levels)
+            if at_level:
+                raise Violation("lossless", f"a level-{levels} tile file was written as {rel!r}, which is no position's name under the {scheme} naming scheme")
     return canvas, present
 
 
@@ -231,7 +250,8 @@ def exec_io(case):
                 arr[y0 : y1 : 2, x0:x1] = np.inf
             fills.add("whole-tile-nonfinite")
     with fresh_dir("c08-") as d:
-        pio = PyramidIO(d, default_format=fmt)
+        scheme = case.get("scheme") or "L/Y/YX"
+        pio = PyramidIO(d, default_format=fmt, scheme=scheme)
         nested = case.get("nested")
         if nested:
             # re-entrancy: while the first tile of this image is being written, another image of the same mode is tiled
@@ -248,7 +268,7 @@ def exec_io(case):
                         tile_study_image(Image.from_array(other, default_format=fmt if fmt != "png" else None), PyramidIO(d2, default_format=fmt))
                     return super().write_image(pos, image, **k)
 
-            pio = NestingIO(d, default_format=fmt)
+            pio = NestingIO(d, default_format=fmt, scheme=scheme)
         src = case.get("source", "array")
         wc = None
         if case.get("flipped"):
@@ -308,7 +328,7 @@ def exec_io(case):
             p2n = ref_p2n(W, H)
             gx0, gy0 = (p2n - W) // 2 + ix, (p2n - H) // 2 + iy
         levels = p2n.bit_length() - 9
-        canvas, present = reassemble(pio, levels, fmt, mode)
+        canvas, present = reassemble(d, scheme, levels, fmt, mode)
         exp = empty_buffer_array(mode, p2n, p2n)
         if mode == "RGB":
             exp[gy0 : gy0 + h, gx0 : gx0 + w, :3] = arr
@@ -337,6 +357,7 @@ def exec_io(case):
     cls = [fmt, mode, "sub-image" if sub else "whole", f"levels{levels}"] + sorted(fills)
     if nested:
         cls.append("nested-tiling")
+    cls.append("scheme-" + scheme.replace("/", ""))
     if case.get("previous") and sub is None:
         cls.append("re-tiled-directory")
     if fmt == "fits":
@@ -362,6 +383,8 @@ def strat_io(draw, tier):
                            for _ in range(draw(st.sampled_from([0, 0, 1, 2])))]}
     if draw(st.integers(0, 4)) == 0:
         case["nested"] = [draw(st.integers(1, 600)), draw(st.integers(1, 600))]
+    if draw(st.integers(0, 2)) == 0:
+        case["scheme"] = "LXY"  # the flat naming scheme (used by the pipeline)
     if mode in ("RGB", "RGBA"):
         case["source"] = draw(st.sampled_from(["array", "pil", "pil-cached"]))
     if draw(st.integers(0, 3)) == 0:
